@@ -38,8 +38,9 @@ func c13NameCase(out *zzverif.Out, s string) {
 	if fpok {
 		fph = zzverif.Hex([]byte(fp))
 	}
-	out.Case(op, fmt.Sprintf("bare=%s full=%s valid=%s str=%s fp=%s", c13Fields(bare), c13Fields(full),
-		zzverif.C13Bool(valid), zzverif.Hex([]byte(str)), fph))
+	disp := full.DisplayShortest()
+	out.Case(op, fmt.Sprintf("bare=%s full=%s valid=%s str=%s fp=%s disp=%s dbare=%s", c13Fields(bare), c13Fields(full),
+		zzverif.C13Bool(valid), zzverif.Hex([]byte(str)), fph, zzverif.Hex([]byte(disp)), zzverif.Hex([]byte(bare.DisplayShortest()))))
 	out.Count("cases")
 	if valid != full.IsFullyQualified() {
 		out.L2("valid-vs-fq", op, "IsValid and IsFullyQualified differ")
@@ -69,6 +70,22 @@ func c13NameCase(out *zzverif.Out, s string) {
 	}
 	if again := ParseNameBare(str); again != full {
 		out.L2("roundtrip-model-bare", op, "ParseNameBare(String()) = "+c13Fields(again))
+	}
+	// clause 2 for the third printer: what DisplayShortest prints (list / ps output) is read back as the same name up to
+	// letter case, and exactly unless host / namespace are case variants of the defaults (which it abbreviates away)
+	if again := ParseName(disp); !again.IsValid() || !again.EqualFold(full) {
+		out.L2("roundtrip-display", op, "ParseName(DisplayShortest()) = "+c13Fields(again)+" want "+c13Fields(full))
+	} else if again != full {
+		out.Count("display_roundtrip_case_only")
+		if (again.Host == full.Host || full.Host != defaultHost && strings.EqualFold(full.Host, defaultHost)) &&
+			(again.Namespace == full.Namespace || full.Namespace != defaultNamespace && strings.EqualFold(full.Namespace, defaultNamespace)) &&
+			again.Model == full.Model && again.Tag == full.Tag {
+			// the documented abbreviation of a case variant of a default
+		} else {
+			out.L2("roundtrip-display", op, "ParseName(DisplayShortest()) = "+c13Fields(again)+" differs beyond the case of a default part")
+		}
+	} else {
+		out.Count("display_roundtrip_exact")
 	}
 	// Filepath and ParseNameFromFilepath are inverse on accepted names
 	if back := ParseNameFromFilepath(fp); back != full {
